@@ -237,6 +237,106 @@ partial def poolRun (s : Pool.Pool) (i : Nat) (toks : List String) (nq : Nat) (i
         let fails := poolAlways s'
         poolRun s' (i + 1) rest nq ((fails.map (fun f => "fail@" ++ toString i ++ ":" ++ f ++ ":" ++ tok.replace ":" "_")).reverse ++ issues)
 
+/-! ### worlds:  `W <dir> <hashing> <nextId> <clock> <Lfiles path=mt> <Ltracked name=jid> <Lhashes name=spec> <Ljobs jid:st:dep+dep:name;…>`
+    workflow: `X (t <name> <id> I <shape> O <shape> P <shape> S <spec>)* Y` -/
+
+def jobStOfName (s : String) : JobSt :=
+  match s with
+  | "pending" => .pending | "running" => .running | "completed" => .completed | "failed" => .failed
+  | _ => .cancelled
+
+def parseKV (tok : String) : List (String × String) :=
+  (unlist tok).filterMap (fun kv => match kv.splitOn "=" with
+    | [k, v] => some (unh k, unh v)
+    | _ => none)
+
+def parseWorld : List String → Option (World × List String)
+  | "W" :: dir :: hashing :: nextId :: clock :: files :: tracked :: hashes :: jobs :: rest =>
+    let fs := (unlist files).filterMap (fun kv => match kv.splitOn "=" with
+      | [k, v] => some (unh k, nat! v)
+      | _ => none)
+    let js := (unlist jobs ";").filterMap (fun e => match e.splitOn ":" with
+      | [jid, st, deps, name] =>
+        let ds : List String := if deps.isEmpty then [] else (deps.splitOn "+").map unh
+        some (Job.mk (unh jid) (jobStOfName st) ds (unh name))
+      | _ => none)
+    some (World.mk (unh dir) fs (parseKV tracked) (parseKV hashes) js (nat! nextId) (nat! clock) (bool! hashing), rest)
+  | _ => none
+
+def parseWTs : Nat → List String → List WT → Option (List WT × List String)
+  | 0, _, _ => none
+  | _, "Y" :: rest, acc => some (acc, rest)
+  | fuel+1, "t" :: name :: id :: "I" :: rest, acc =>
+    (match parseShape rest with
+     | some (i, "O" :: r1) =>
+       (match parseShape r1 with
+        | some (o, "P" :: r2) =>
+          (match parseShape r2 with
+           | some (pr, "S" :: spec :: r3) =>
+             let t : WT := ⟨unh name, nat! id, i, o, pr, unh spec⟩
+             parseWTs fuel r3 (acc ++ [t])
+           | _ => none)
+        | _ => none)
+     | _ => none)
+  | _, _, _ => none
+
+def parseWorldWf (toks : List String) : Option (World × List WT × List String) :=
+  match parseWorld toks with
+  | some (w, "X" :: rest) =>
+    (match parseWTs (rest.length + 1) rest [] with
+     | some (wf, rest') => some (w, wf, rest')
+     | none => none)
+  | _ => none
+
+def showKV (m : List (String × String)) : String :=
+  ",".intercalate (sortStrs (m.map (fun p => toh p.1 ++ "=" ++ toh p.2)))
+
+def showJobs (js : List Job) : String :=
+  ";".intercalate (js.map (fun j => toh j.id ++ ":" ++ j.st.name ++ ":" ++ "+".intercalate (j.deps.map toh) ++ ":" ++ toh j.name))
+
+def showFiles (fs : List (String × Nat)) : String :=
+  ",".intercalate (sortStrs (fs.map (fun p => toh p.1 ++ "=" ++ toString p.2)))
+
+def pats (tok : String) : List String := (unlist tok).map unh
+
+def worldCmd (cmd : String) (w : World) (wf : List WT) (args : List String) : String :=
+  match cmd, args with
+  | "status", [] =>
+    (match w.status wf with
+     | .error e => "err " ++ e.name
+     | .ok rows => "ok rows=" ++ ",".intercalate ((sortPairs rows).map (fun p => toString p.1 ++ ":" ++ p.2.name)))
+  | "statusf", [sts, ep, ps] =>
+    (match w.statusFiltered wf ((unlist sts).filterMap Status.ofName?) (bool! ep) (pats ps) with
+     | .error e => "err " ++ e.name
+     | .ok rows => "ok rows=" ++ ",".intercalate ((sortPairs rows).map (fun p => toString p.1 ++ ":" ++ p.2.name)))
+  | "dry", [ps] =>
+    (match w.plan wf (pats ps) with
+     | .error e => "err " ++ e.name
+     | .ok subs => "ok would=" ++ ",".intercalate (subs.map (fun s => toh (nameOf wf s.1))))
+  | "run", [ps] =>
+    (match w.plan wf (pats ps), w.run wf (pats ps) with
+     | .ok subs, .ok w' =>
+       let subsShown := subs.map (fun s => toh (nameOf wf s.1) ++ ":" ++ "+".intercalate (s.2.map (fun d => toh (nameOf wf d))))
+       "ok subs=" ++ ";".intercalate subsShown ++ " tracked=" ++ showKV w'.tracked ++ " hashes=" ++ showKV w'.hashes
+         ++ " jobs=" ++ showJobs w'.jobs
+     | .error e, _ => "err " ++ e.name
+     | _, .error e => "err " ++ e.name)
+  | "touch", [ps] =>
+    (match w.touch wf (pats ps) with
+     | .error e => "err " ++ e.name
+     | .ok w' => "ok files=" ++ showFiles w'.files ++ " hashes=" ++ showKV w'.hashes)
+  | "clean", [all, ps] =>
+    (match w.clean wf (pats ps) (bool! all) with
+     | .error e => "err " ++ e.name
+     | .ok w' => "ok files=" ++ showFiles w'.files ++ " hashes=" ++ showKV w'.hashes)
+  | "cancel", [ps] =>
+    (match w.cancelCmds wf (pats ps), w.cancel wf (pats ps) with
+     | .ok cmds, .ok w' => "ok cmds=" ++ ";".intercalate (cmds.map (fun c => toh c.1 ++ ":" ++ (match c.2 with | some j => toh j | none => "-")))
+         ++ " jobs=" ++ showJobs w'.jobs
+     | .error e, _ => "err " ++ e.name
+     | _, .error e => "err " ++ e.name)
+  | _, _ => "bad-op"
+
 def dispatch (toks : List String) : String :=
   match toks with
   | ["ping"] => "pong"
@@ -333,6 +433,11 @@ def dispatch (toks : List String) : String :=
           if fails.isEmpty then "ok" else "fail " ++ ",".intercalate fails
         | none => "bad-op")
      | _ => "bad-op")
+  | "glob" :: pat :: name :: [] => showBool (Glob.globMatch (unh pat) (unh name))
+  | "world" :: cmd :: rest =>
+    (match parseWorldWf rest with
+     | some (w, wf, args) => worldCmd cmd w wf args
+     | none => "bad-op")
   | "pool.run" :: cores :: labels =>
     poolRun (Pool.init (nat! cores)) 0 labels 0 [] ++ " oracle=" ++ ",".intercalate (poolOracle (nat! cores) labels)
   | _ => "bad-op"
